@@ -254,6 +254,30 @@ func c09Regress(c *hx.Ctx) []*scenario {
 	// a failing DeletePacket(Outgoing) while an acknowledgement is processed, then the broker goes away
 	out = append(out, &scenario{name: "regress/ack-delete-fails-then-drop", failAt: map[string]int{"delete": 1},
 		steps: cat(opening(cfgPersist, 1, false), []step{sPub(2, 1), sB(&packet.Puback{ID: 1}), sIdle(), sPub(3, 1), sDrop(), sIdle()})})
+	for ci, cfg := range []cfgT{cfgPersist, cfgDefault} {
+		// Conn.Close fails while futures are unacknowledged: they must still end cancelled
+		for _, how := range []string{"close", "disc"} {
+			last := sClose(5)
+			if how == "disc" {
+				last = sDisc(5, false)
+			}
+			out = append(out, &scenario{name: fmt.Sprintf("regress/close-fails-pending-%s-c%d", how, ci), failAt: map[string]int{"close": 1},
+				steps: cat(opening(cfg, 1, false), []step{sPub(2, 1), sSub(3, 1), sUns(4), last})})
+		}
+		// Disconnect with a timeout while a future stays pending: it returns at the deadline (6abd8ad: also when
+		// the deadline has already passed)
+		for zi, zero := range []bool{false, true} {
+			d := sDisc(4, true)
+			d.zero = zero
+			out = append(out, &scenario{name: fmt.Sprintf("regress/disconnect-timeout-pending-z%d-c%d", zi, ci),
+				steps: cat(opening(cfg, 1, false), []step{sPub(2, 1), sPub(3, 2), d})})
+		}
+	}
+	// observation (not a violation under the reading of section 6): a SUBACK carrying the id of a pending QoS 1
+	// publish removes the stored PUBLISH and completes the publish future; nothing is retransmitted afterwards
+	out = append(out, &scenario{name: "observe/spurious-suback-erases-publish", steps: cat(opening(cfgPersist, 1, false),
+		[]step{sPub(2, 1), sB(&packet.Suback{ID: 1, ReturnCodes: []packet.QOS{0}}), sWaitFut(2), sDrop(), sIdle()},
+		opening(cfgPersist, 3, true), []step{sDisc(4, false)})})
 	out = append(out, &scenario{name: "regress/D8-reset", failAt: map[string]int{"reset": 1}, steps: []step{sNew(cfgDefault), sConnect(1, cfgDefault), sClose(2)}})
 	return out
 }
